@@ -3,7 +3,7 @@
 From Coq Require Import ZArith List Bool Arith Lia Permutation.
 Import ListNotations.
 Require Import Nib.Lib.Dec Nib.C10.Model Nib.C10.Spec Nib.C10.Cfg.
-Require Export Nib.C10.ProofsMedian Nib.C10.ProofsUpdate Nib.C10.ProofsPanic Nib.C10.ProofsIrrelevant Nib.C10.ProofsHist.
+Require Export Nib.C10.ProofsMedian Nib.C10.ProofsUpdate Nib.C10.ProofsPanic Nib.C10.ProofsIrrelevant Nib.C10.ProofsHist Nib.C10.ProofsMsg.
 Local Open Scope Z_scope.
 Local Arguments Z.mul : simpl never.
 Local Arguments Z.add : simpl never.
@@ -224,7 +224,13 @@ Proof. split; [unfold no_wrap; simpl; lia|]. split; vm_compute; reflexivity. Qed
 
 Lemma cfg_ok_variant c : cfg_ok c = true -> variant_of c = Some (true, true, true) /\ validate_ok c = true.
 Proof.
-  unfold cfg_ok. destruct (variant_of c) as [[[[|] [|]] [|]]|]; try discriminate. intro H. split; [reflexivity | exact H].
+  unfold cfg_ok. destruct (variant_of c) as [[[[|] [|]] [|]]|]; try discriminate. intro H.
+  apply andb_true_iff in H as [H _]. split; [reflexivity | exact H].
+Qed.
+Lemma cfg_ok_voter c : cfg_ok c = true -> voter_canonical c = true.
+Proof.
+  unfold cfg_ok. destruct (variant_of c) as [[[[|] [|]] [|]]|]; try discriminate. intro H.
+  apply andb_true_iff in H as [_ H]. exact H.
 Qed.
 
 (** for a configuration accepted by [cfg_ok] the model denoted by it is the one all theorems are about *)
@@ -235,4 +241,21 @@ Theorem holds_for_cfg c : cfg_ok c = true ->
   forall p st h, wf st -> exists o, end_block_cfg c p st h = Some o /\ P p st h o.
 Proof.
   intros Hc p st h Hw. exists (end_block true p st h). split; [apply end_block_cfg_ok; exact Hc | apply end_block_holds; exact Hw].
+Qed.
+
+(** the message-level model of the code described by [c]: the median variant and which Voter string the message
+    server stores *)
+Definition mhist_obs_cfg (c : code_cfg) (p : params) (s : mstate) (xs : list (henv * mstep)) : option (list (henv * mstep * mobs)) :=
+  match variant_of c with
+  | Some (fx, true, true) => Some (mhist_obs (voter_canonical c) fx p s xs)
+  | _ => None
+  end.
+
+Theorem msg_holds_for_cfg c : cfg_ok c = true ->
+  forall p xs, Forall (fun ex => wf_env (fst ex)) xs -> forall s, canonical_store s ->
+  exists o, mhist_obs_cfg c p s xs = Some o /\
+            P_mhist p (ms_rates s) (map to_avote (ms_votes s)) (map to_prevote (ms_prevotes s)) o.
+Proof.
+  intros Hc p xs Hw s Hs. exists (mhist_obs true true p s xs). split; [|apply mhist_holds; assumption].
+  unfold mhist_obs_cfg. destruct (cfg_ok_variant c Hc) as [-> _]. rewrite (cfg_ok_voter c Hc). reflexivity.
 Qed.
